@@ -66,6 +66,15 @@ CHECKS = {
              "call's accept/reject outcome and the definition shown by architecture[layer] / str() are validated step "
              "by step; LayerRule histories likewise (architecture first, exactly one subject layer).",
         design_ref="6 (C16)"),
+    "C05": dict(
+        technique="TLA+ specification of layer semantics (LayerSem.tla) model-checked with TLC; TLC-emitted states "
+                  "replayed into real LayeredArchitecture/LayerRule objects and validated by Trace_Layers.tla",
+        text="Layer semantics (one unit per layer, same-layer imports never count, unmentioned layers = no layer) are "
+             "TLA+ operators; TLC checks on every import relation of a bounded world that dropping unmentioned layers and "
+             "adding intra-layer imports never changes an outcome and that singleton layers reduce to module rules. Every "
+             "emitted state is replayed with all 12 shapes + aliases x 1-2 object layers for name/regex/mixed definitions, "
+             "plus seeded random worlds; verdict, message lines and layer tags are validated by the trace specification.",
+        design_ref="6 (C05)"),
 }
 
 PENDING = {}
